@@ -78,7 +78,7 @@ def _kill(facts: frozenset[str], written: Iterable[str]) -> frozenset[str]:
     return frozenset(keep)
 
 
-def branch_facts(cfg: CFG) -> dict[int, frozenset[str]]:
+def branch_facts(cfg: CFG, gen=None) -> dict[int, frozenset[str]]:
     """node id -> facts holding on entry to the node on every path."""
     TOP = None
     state: dict[int, frozenset[str] | None] = {n.id: TOP for n in cfg.nodes}
@@ -93,6 +93,10 @@ def branch_facts(cfg: CFG) -> dict[int, frozenset[str]]:
             for t in n.ast.targets:
                 written.append(dotted(t))
         out_base = _kill(cur, written)
+        if gen is not None:
+            extra = gen(n)
+            if extra:
+                out_base = frozenset(out_base | set(extra))
         for label, s in n.succs:
             out = out_base
             if n.kind == 'test' and label in ('true', 'false'):
